@@ -76,6 +76,33 @@ Theorem template_tie_summary :
 Proof. exact TemplateExec.template_tie_summary. Qed.
 Print Assumptions template_tie_summary.
 
+(** the reporters themselves: what [regReporterTemplate.Process] writes for a day (one checked chunk) is the
+    evaluation of the template text - the default one, or the left-aligned one when the configuration names
+    it - over the value of [GetReportItem]; likewise [SummaryReporterTemplate.Process] *)
+Theorem rep_template_text :
+  forall (NM : Num) (c : rconfig) (d : list (bytes * elements NM)) (perm : list bytes -> list bytes)
+         (ln : lognode NM) (src : bytes),
+    parse_template src = Some (if beq (rc_template c) (b "left-aligned") then left_ast else default_ast) ->
+    exists out,
+      option_bind (parse_template src)
+                  (fun a => exec_template (template_funcs NM c) a (item_value NM (get_report_item NM c perm d ln)))
+      = Some out
+      /\ r_process NM (rep_template NM c d) perm tt ln = (tt, [checked out], None).
+Proof. exact TemplateExec.rep_template_text. Qed.
+Print Assumptions rep_template_text.
+
+Theorem rep_summary_text :
+  forall (NM : Num) (c : rconfig) (d : list (bytes * elements NM)) (perm : list bytes -> list bytes)
+         (ln : lognode NM) (src : bytes),
+    parse_template src = Some summary_ast ->
+    exists out,
+      option_bind (parse_template src)
+                  (fun a => exec_template (template_funcs NM c) a (item_value NM (get_report_item NM c perm d ln)))
+      = Some out
+      /\ r_process NM (rep_summary NM c d) perm tt ln = (tt, [checked out], None).
+Proof. exact TemplateExec.rep_summary_text. Qed.
+Print Assumptions rep_summary_text.
+
 (** the boolean the per-run check prints decides equality of trees *)
 Theorem tmpl_eqb_sound :
   forall x y : option (list tnode), tmpl_eqb x y = true -> x = y.
